@@ -160,6 +160,19 @@ CHECKS["C17"] = dict(
          "range, for every enumerated length (thorough: all of 0..1100).",
     note="Trusted base: harness/src/bulk.cpp, g++ ASan/UBSan. Exhaustive only over the enumerated lengths, policies and match positions.")
 
+CHECKS["C19"] = dict(
+    level="exploration", design="5 C19",
+    technique="runtime monitoring under stress: exactly-once completion counters, stop()-hook call counters and "
+              "start/stop ordering flags on a raw operation wrapped in cancellable<>, operation states malloc'd and freed "
+              "at completion (ASan), detach_on_cancel child-state ledger, stop_on_request fired from two threads, canary "
+              "destructor/guard/watcher triads; persistent racing threads with delay injection at the fetch_or/CAS sites; ASan and TSan",
+    text="Natural completion (inline, or from a completer thread after 0-8 us, or never), a stop request (before start, "
+         "concurrently with start, later) and the return of start() race on cancellable<raw,false/true>; exactly one of "
+         "them may complete the receiver, stop() runs at most once and never before start() unless in skip-start mode, and "
+         "freed operation states expose any later touch. The same discipline for detach_on_cancel (done delivered with the "
+         "stop request; abandoned child freed exactly once), stop_on_request and canary.",
+    note=MT_NOTE + " create_raw_sender / create_basic_sender are not driven.")
+
 NOT_YET = "check not built yet (construction in progress, see DESIGN.md section 10)"
 
 
